@@ -21,6 +21,8 @@ def gen_line_unit(rng, ver, le, asz, lstr, comp_dir, primary):
     ndirs = rng.choice([0, 1, 2, 3])
     dirs = rng.sample(DIRS, ndirs)
     nfiles = rng.choice([1, 2, 4] * 7 + [130])
+    if getattr(rng, 'variant', None) is not None:
+        nfiles = 130 if rng.variant % 7 == 6 and ver >= 5 else rng.choice([1, 2, 4])       # one large v5 table in every run
     files = [(primary, 0)] + [(rng.choice(FILES[2:]), rng.randint(0, ndirs)) for _ in range(nfiles - 1)]
     if ver < 5:
         for d in dirs:
@@ -116,6 +118,8 @@ def gen_lines_file(rng):
     shape = []
     for i in range(n):
         ver = rng.choice([2, 3, 4, 5])
+        if getattr(rng, 'variant', None) is not None and rng.variant % 7 == 6 and i == 0:
+            ver = 5
         comp_dir = rng.choice(['/build/obj', '/tmp', '/home/user/proj'])
         primary = rng.choice(FILES[:2])
         off = len(line)
@@ -384,6 +388,8 @@ def gen_loc_file(rng):
         low = rng.choice([0x1000, 0x401000]) + 0x10000 * i
         size = 0x400
         fmt = rng.choice([32, 32, 64])          # 64-bit DWARF format: section offsets are 8 bytes (data8 before version 4)
+        if getattr(rng, 'variant', None) is not None:
+            fmt = 64 if (rng.variant + i) % 3 == 2 else 32
         cu = dwtab.CU(version=ver, asz=asz, le=le, fmt=fmt)
         cu.root_name = 'unit%d.c' % i
         hp = (0x12, 0x01, struct.pack(A, low + size), None) if ver < 4 else (0x12, 0x07 if asz == 8 else 0x06, struct.pack(A, size), None)
